@@ -32,6 +32,7 @@ from lark import (
     UnexpectedEOF,
     ParseTree,
 )
+from lark.exceptions import VisitError
 
 from .types import Nil
 
@@ -182,6 +183,28 @@ def _convert_params(params: Dict[str, Callable]) -> Dict[str, Any]:
         values.update(conversion_table[name](value))
 
     return values
+
+
+def _visit_error(filename: pathlib.Path, e: VisitError) -> Err[FcpError]:
+    msg = f"Invalid {e.rule}: {e.orig_exc}"
+    meta = getattr(e.obj, "meta", None)
+    if meta is None or getattr(meta, "empty", True):
+        return error(msg)
+
+    return error(
+        msg,
+        Token(
+            MetaData(
+                meta.line,
+                meta.end_line,
+                meta.column,
+                meta.end_column,
+                meta.start_pos,
+                meta.end_pos,
+                str(filename),
+            )
+        ),
+    )
 
 
 class ParserContext:
@@ -442,12 +465,15 @@ class FcpV2Transformer(Transformer):
         except (UnexpectedCharacters, UnexpectedEOF) as e:
             return _lark_error(self.error_logger, filename, source, e)
 
-        fcp = FcpV2Transformer(
-            pathlib.Path(filename).resolve(),
-            self.parser_context,
-            self.filesystem_proxy,
-            self.error_logger,
-        ).transform(fcp_ast)
+        try:
+            fcp = FcpV2Transformer(
+                pathlib.Path(filename).resolve(),
+                self.parser_context,
+                self.filesystem_proxy,
+                self.error_logger,
+            ).transform(fcp_ast)
+        except VisitError as e:
+            return _visit_error(filename, e)
 
         self.fcp.merge(
             fcp.map_err(
@@ -586,9 +612,12 @@ def _get_fcp(
 
     parser_context = ParserContext()
 
-    fcp = FcpV2Transformer(
-        filename, parser_context, filesystem_proxy, logger
-    ).transform(fcp_ast)
+    try:
+        fcp = FcpV2Transformer(
+            filename, parser_context, filesystem_proxy, logger
+        ).transform(fcp_ast)
+    except VisitError as e:
+        return _visit_error(filename, e)
 
     return Ok(fcp.attempt())
 
